@@ -29,6 +29,27 @@ Proof. reflexivity. Qed.
 Theorem C15_generated_purity_shapes : gen_all_fields_copies = true /\ gen_group_asdict_reads_member = true.
 Proof. split; reflexivity. Qed.
 
+(* ---- memoisation: merge_record_descriptors (and through it extend_record / iter_timestamped_records) is cached on
+        (descriptors, replace, name).  With the GENERATED shape of RecordDescriptor.__eq__ any sequence of calls through
+        the cache returns exactly what the uncached function returns: the caches are keyed by the definition. ---- *)
+Theorem C15_caches_keyed_by_definition :
+  forall (R : Type) (f : mkey -> R) (ks : list mkey),
+    run_cached (mkey_eqb gen_desc_eq_structural) f [] ks = map f ks.
+Proof. intros R f ks. exact (merge_cache_transparent gen_desc_eq_structural R f ks eq_refl). Qed.
+
+(* with equality of identifiers instead, demo/extra[(string aw)] and demo/extra[(wstring a)] are one key: the second
+   merge returns the first's cached descriptor (field a is lost) *)
+Definition w_base : dkey := ("demo/base", [("x", "varint")]).
+Definition w_first : dkey := ("demo/extra", [("aw", "string")]).
+Definition w_second : dkey := ("demo/extra", [("a", "wstring")]).
+Definition w_merge (k : mkey) : list (string * string) := p_merge_descs gen_facts (fst (snd k)) (map snd (fst k)).
+Theorem C15_cache_identifier_key_refuted :
+  run_cached (mkey_eqb false) w_merge [] [([w_base; w_first], (false, None)); ([w_base; w_second], (false, None))]
+  = [[("x", "varint"); ("aw", "string")]; [("x", "varint"); ("aw", "string")]] /\
+  map w_merge [([w_base; w_first], (false, None)); ([w_base; w_second], (false, None))]
+  = [[("x", "varint"); ("aw", "string")]; [("x", "varint"); ("a", "wstring")]].
+Proof. split; reflexivity. Qed.
+
 (* ---- merge_record_descriptors = the reference, for ALL lists of descriptors (replacement needs
         duplicate-free descriptors: duplicates inside one descriptor are C06's finding) ---- *)
 Theorem C15_merge_order_and_precedence :
